@@ -10,6 +10,8 @@ CONSTANTS
   H = 100
   MaxNow = 2
   MaxNet = 2
+  MaxRxq = 2
+  MaxGwResend = 1
   DupBudget = 0
   LossBudget = 0
   InjBudget = 0
